@@ -353,7 +353,10 @@ def finish(pid, tier, seed, m, crashed, timeouts, nshards, wall):
     cov = {
         'evaluations': m['evaluations'],
         'distinct_nontrivial': nontriv,
-        'rule': prop.rule,
+        'rule': prop.rule + ((' Added workload classes: ' + prop.rule_added) if getattr(prop, 'rule_added', '') else '') +
+                ('' if not getattr(prop, 'object_histories', True) else
+                 ' In every check 15% of the monitor objects get a prehistory the properties declare harmless (online: '
+                'a few updates with other values, then reset(); offline: an evaluate() on other data first).'),
         'samples': m['samples'][:6] or [{'note': 'no case generated'}],
         'exhaustive': False,
         'stats': m['stats'],
